@@ -1,4 +1,5 @@
 import Pyrtma.Proofs.ManagerSim
+import Pyrtma.Proofs.ManagerOrder
 /-!
 # Refinement of the history-based Spec by the manager model M1 — part 3: one frame read
 
@@ -391,7 +392,7 @@ theorem checkAcks_sendAck (cfg : Cfg) (hperm : OrdPerm cfg) {x b : Spec.A} {s : 
 
 /-- a change of model fields the relation does not read -/
 theorem sim_same {cfg : Cfg} {a : Spec.A} {s s' : State} (hs : Sim cfg a s) (hm : s'.mods = s.mods)
-    (hl : s'.loggers = s.loggers) (hn : s'.nextUid = s.nextUid) (hf : s'.fail = s.fail) (hb : s'.buf = s.buf)
+    (hi : s'.idx = s.idx) (hl : s'.loggers = s.loggers) (hn : s'.nextUid = s.nextUid) (hf : s'.fail = s.fail) (hb : s'.buf = s.buf)
     (hw : s'.wlist = s.wlist) : Sim cfg a s' := by
   have hfind : ∀ u, s'.find u = s.find u := fun u => by unfold State.find; rw [hm]
   exact ⟨hs.uids, by rw [hn]; exact hs.nacc, by rw [hf]; exact hs.fail, by rw [hb]; exact hs.buf,
@@ -399,7 +400,8 @@ theorem sim_same {cfg : Cfg} {a : Spec.A} {s s' : State} (hs : Sim cfg a s) (hm 
     fun u h => by rw [hw]; exact hs.w u h, fun u m h1 h2 => by rw [hl]; exact hs.logIn u m (by rw [← hfind]; exact h1) h2,
     fun u m h1 h2 => hs.logOut u m (by rw [← hl]; exact h1) (by rw [← hfind]; exact h2),
     fun u m h1 h2 => hs.logConn u m (by rw [← hfind]; exact h1) h2, by rw [hl]; exact hs.logNodup,
-    by rw [hl, hn]; exact hs.logBound⟩
+    by rw [hl, hn]; exact hs.logBound,
+    fun u m t h1 h2 => by rw [hi]; exact hs.idxIn u m t (by rw [← hfind]; exact h1) h2, by rw [hi]; exact hs.idxPos⟩
 
 /-- an error extension (and any change of the statistics fields) of the abstract state -/
 theorem sim_coreExt {cfg : Cfg} {T : List String} {a a' : Spec.A} {s : State} (hs : Sim cfg a s) (h : Spec.CoreExt T a a') :
@@ -409,12 +411,12 @@ theorem sim_coreExt {cfg : Cfg} {T : List String} {a a' : Spec.A} {s : State} (h
   exact ⟨by rw [h.mods, h.nAccepted]; exact hs.uids, by rw [h.nAccepted]; exact hs.nacc, by rw [h.fail]; exact hs.fail,
     by rw [h.buf]; exact hs.buf, fun u hu => by rw [hlive]; exact hs.live u hu,
     fun u am m h1 h2 => hs.mods u am m (by rw [← hlive]; exact h1) h2,
-    fun u hl => by rw [h.w]; exact hs.w u (by rw [← hlive]; exact hl), hs.logIn, hs.logOut, hs.logConn, hs.logNodup, hs.logBound⟩
+    fun u hl => by rw [h.w]; exact hs.w u (by rw [← hlive]; exact hl), hs.logIn, hs.logOut, hs.logConn, hs.logNodup, hs.logBound, hs.idxIn, hs.idxPos⟩
 
 /-- the receive buffer is written on both sides -/
 theorem sim_buf {cfg : Cfg} {a : Spec.A} {s : State} (hs : Sim cfg a s) (b : List Nat) :
     Sim cfg { a with buf := b } { s with buf := b } :=
-  ⟨hs.uids, hs.nacc, hs.fail, rfl, hs.live, hs.mods, hs.w, hs.logIn, hs.logOut, hs.logConn, hs.logNodup, hs.logBound⟩
+  ⟨hs.uids, hs.nacc, hs.fail, rfl, hs.live, hs.mods, hs.w, hs.logIn, hs.logOut, hs.logConn, hs.logNodup, hs.logBound, hs.idxIn, hs.idxPos⟩
 
 theorem live_upd (a : Spec.A) (u v : Nat) (f : Spec.AMod → Spec.AMod) (hf : ∀ m, (f m).uid = m.uid)
     (ha : ∀ m, (f m).alive = m.alive) :
@@ -437,6 +439,7 @@ theorem sim_upd_find {cfg : Cfg} {a : Spec.A} {s s' : State} (hs : Sim cfg a s) 
     (hfind : ∀ v, s'.find v = (s.find v).map (fun m => if m.uid == u then fm m else m))
     (hl : s'.loggers = s.loggers) (hn : s'.nextUid = s.nextUid) (hf : s'.fail = s.fail) (hb : s'.buf = s.buf)
     (hw : s'.wlist = s.wlist)
+    (hidx : ∀ v m t, s'.find v = some m → t ∈ m.subs → v ∈ idxGet s'.idx t) (hpos : ∀ t v, v ∈ idxGet s'.idx t → v ≠ 0)
     (hrel : ∀ am m, a.live u = some am → s.find u = some m → SimMod cfg am m → SimMod cfg (fa am) (fm m))
     (hlg : ∀ m, (fm m).isLogger = m.isLogger) (hcn : ∀ m, (fm m).connected = m.connected) :
     Sim cfg (a.upd u fa) s' := by
@@ -444,7 +447,7 @@ theorem sim_upd_find {cfg : Cfg} {a : Spec.A} {s s' : State} (hs : Sim cfg a s) 
   refine ⟨by rw [Spec.uids_upd a u fa hfa]; exact hs.uids, by rw [hn]; exact hs.nacc, by rw [hf]; exact hs.fail,
     by rw [hb]; exact hs.buf, fun v hv => ?_, fun v am m h1 h2 => ?_,
     fun v hl' => ?_, fun v m h1 h2 => ?_, fun v m h1 h2 => ?_, fun v m h1 h2 => ?_, by rw [hl]; exact hs.logNodup,
-    by rw [hl, hn]; exact hs.logBound⟩
+    by rw [hl, hn]; exact hs.logBound, hidx, hpos⟩
   · rw [hlive, hfind, Option.isSome_map, Option.isSome_map]; exact hs.live v hv
   · rw [hlive] at h1; rw [hfind] at h2
     cases ha : a.live v with
@@ -505,9 +508,21 @@ theorem sim_upd {cfg : Cfg} {a : Spec.A} {s : State} (hs : Sim cfg a s) (u : Nat
     (fa : Spec.AMod → Spec.AMod) (fm : Module → Module)
     (hfa : ∀ m, (fa m).uid = m.uid) (haa : ∀ m, (fa m).alive = m.alive) (hfm : ∀ m, (fm m).uid = m.uid)
     (hrel : ∀ am m, a.live u = some am → s.find u = some m → SimMod cfg am m → SimMod cfg (fa am) (fm m))
-    (hlg : ∀ m, (fm m).isLogger = m.isLogger) (hcn : ∀ m, (fm m).connected = m.connected) :
-    Sim cfg (a.upd u fa) (s.upd u fm) :=
-  sim_upd_find hs u fa fm hfa haa (fun v => find_upd s u v fm hfm) rfl rfl rfl rfl rfl hrel hlg hcn
+    (hlg : ∀ m, (fm m).isLogger = m.isLogger) (hcn : ∀ m, (fm m).connected = m.connected)
+    (hsb : ∀ m, (fm m).subs = m.subs) :
+    Sim cfg (a.upd u fa) (s.upd u fm) := by
+  refine sim_upd_find hs u fa fm hfa haa (fun v => find_upd s u v fm hfm) rfl rfl rfl rfl rfl ?_ hs.idxPos hrel hlg hcn
+  intro v m' t hm' ht
+  rw [find_upd s u v fm hfm] at hm'
+  cases hm0 : s.find v with
+  | none => simp [hm0] at hm'
+  | some m0 =>
+    simp only [hm0, Option.map_some, Option.some.injEq] at hm'
+    refine hs.idxIn v m0 t hm0 ?_
+    subst hm'
+    split at ht
+    · rw [hsb] at ht; exact ht
+    · exact ht
 
 /-! ## the model's `readOne`, in the Spec's terms -/
 
@@ -587,6 +602,7 @@ structure QuietTo (cfg : Cfg) (s1 s2 : State) : Prop where
   top : Top cfg s2
   j : J s2
   noAck : Quiet isAck s1 s2
+  noData : ∀ k, Quiet (cp k) s1 s2
 
 theorem noErr_applyDepartures {p : String} {a : Spec.A} (evs : List Ev) (h : Spec.NoErr p a) :
     Spec.NoErr p (Spec.applyDepartures a evs) := by
@@ -621,7 +637,7 @@ theorem rdState_J {cfg : Cfg} {s : State} (h : J s) (rd : Read) : J (rdState cfg
 
 theorem rdState_sim {cfg : Cfg} {a : Spec.A} {s : State} (hs : Sim cfg a s) (rd : Read) :
     Sim cfg (Spec.afterBuf cfg a rd) (rdState cfg s rd) := by
-  have h1 : Sim cfg a (s.emit (.rd rd.uid)) := sim_same hs rfl rfl rfl rfl rfl rfl
+  have h1 : Sim cfg a (s.emit (.rd rd.uid)) := sim_same hs rfl rfl rfl rfl rfl rfl rfl
   have h2 := sim_buf h1 (Spec.bufAfter cfg s.buf rd)
   unfold Spec.afterBuf rdState
   rw [hs.buf]; exact h2
@@ -716,14 +732,14 @@ end pm
 /-! ## one frame: the cases -/
 
 /-- the properties whose Spec clauses are proved to hold on every run of the model -/
-def proven : List String := ["C19"]
+def proven : List String := ["C19", "C01"]
 
 /-- the tags of all the other clauses -/
-def others : List String := ["C01", "C03", "C05", "C06", "C07", "C14", "C18"]
+def others : List String := ["C03", "C05", "C06", "C07", "C14", "C18"]
 
 theorem proven_not {p : String} (hp : p ∈ proven) : p ∉ others := by
-  simp only [proven, List.mem_singleton] at hp
-  subst hp; decide
+  simp only [proven, List.mem_cons, List.not_mem_nil, or_false] at hp
+  rcases hp with rfl | rfl <;> decide
 
 theorem ext_others {T : List String} {a b : Spec.A} (h : Spec.ErrExt T a b)
     (hs : ∀ p, p ∈ T → p ∈ others := by simp [others]) : Spec.CoreExt others a b := (h.mono hs).core
@@ -826,23 +842,6 @@ theorem seg_setName_bad (hn : (rd.h.mtype == cfg.mtSetName) = true) (hnm : cstr 
     exact ext_others (Spec.checkDepartures_ext cfg _ _ evs)
   exact segGoal_of hseg rfl (seg_close (rdState_sim inv.sim rd) (rdState_top ok hfuel inv.top rd) n q evs he hW)
 
-theorem seg_data (hn : (rd.h.mtype == cfg.mtSetName) = false) (hr : (rd.h.mtype == cfg.mtModuleReady) = false) :
-    SegGoal cfg a rd evs s2 := by
-  rw [readOne_whole cfg s rd inv.top.good.ok m hm hb, pm_data cfg _ _ _ hc hd hs hn hr] at q
-  obtain ⟨Z, hZ, hseg⟩ := Spec.segment_data cfg a rd evs am hget hal hb hc hd hs hn hr
-  obtain ⟨fr, hfr⟩ : ∃ fr : Frame, fr = Frame.mk rd.h.mtype rd.h.src rd.h.dest rd.h.destHost rd.h.nbytes.toNat (.data rd.h.k) :=
-    ⟨_, rfl⟩
-  rw [← hfr] at q
-  have hfb : fr.body ≠ .ack := by rw [hfr]; simp
-  have n := (logTop_nest cfg 10 (rdState cfg s rd)).trans (fwdTop_nest cfg _ fr)
-  have qa := (qa_log cfg 10 (rdState cfg s rd)).trans (qa_fwd cfg _ fr hfb)
-  have hnil := acks_nil_of_quiet qa q evs he
-  rw [Spec.checkAcks_false_ok cfg _ rd.uid evs hnil] at hZ
-  have hW : Spec.CoreExt others (Spec.afterBuf cfg a rd) (Spec.checkDepartures cfg Z none evs) :=
-    ((ext_others (Spec.checkData_ext cfg _ rd.h evs)).trans (core_others hZ)).trans
-      (ext_others (Spec.checkDepartures_ext cfg Z _ evs))
-  exact segGoal_of hseg rfl (seg_close (rdState_sim inv.sim rd) (rdState_top ok hfuel inv.top rd) n q evs he hW)
-
 theorem seg_setName (hn : (rd.h.mtype == cfg.mtSetName) = true) (nm : List Nat)
     (hnm : cstr (rdState cfg s rd).buf 0 32 = some nm) : SegGoal cfg a rd evs s2 := by
   rw [readOne_whole cfg s rd inv.top.good.ok m hm hb, pm_setName cfg _ _ _ hc hd hs hn nm hnm] at q
@@ -853,7 +852,7 @@ theorem seg_setName (hn : (rd.h.mtype == cfg.mtSetName) = true) (nm : List Nat)
       ((rdState cfg s rd).upd rd.uid (fun m => { m with name := nm })) :=
     sim_upd (rdState_sim inv.sim rd) rd.uid _ _ (fun _ => rfl) (fun _ => rfl) (fun _ => rfl)
       (fun am m _ _ h => ⟨h.connected, h.modId, h.unique, h.isLogger, h.isDaemon, rfl, h.pid, h.subs, h.noAll⟩)
-      (fun _ => rfl) (fun _ => rfl)
+      (fun _ => rfl) (fun _ => rfl) (fun _ => rfl)
   have t0 : Top cfg ((rdState cfg s rd).upd rd.uid (fun m => { m with name := nm })) :=
     top_upd ok hfuel (rdState_top ok hfuel inv.top rd) rd.uid _ (fun _ => rfl) (fun _ => rfl) (fun _ => rfl)
   have n := (logTop_nest cfg 20 ((rdState cfg s rd).upd rd.uid (fun m => { m with name := nm }))).trans
@@ -877,7 +876,7 @@ theorem seg_ready (hn : (rd.h.mtype == cfg.mtSetName) = false) (hr : (rd.h.mtype
       ((rdState cfg s rd).upd rd.uid (fun m => { m with pid := pid })) :=
     sim_upd (rdState_sim inv.sim rd) rd.uid _ _ (fun _ => rfl) (fun _ => rfl) (fun _ => rfl)
       (fun am m _ _ h => ⟨h.connected, h.modId, h.unique, h.isLogger, h.isDaemon, h.name, rfl, h.subs, h.noAll⟩)
-      (fun _ => rfl) (fun _ => rfl)
+      (fun _ => rfl) (fun _ => rfl) (fun _ => rfl)
   have t0 : Top cfg ((rdState cfg s rd).upd rd.uid (fun m => { m with pid := pid })) :=
     top_upd ok hfuel (rdState_top ok hfuel inv.top rd) rd.uid _ (fun _ => rfl) (fun _ => rfl) (fun _ => rfl)
   have n := sendInfo_nest cfg ((rdState cfg s rd).upd rd.uid (fun m => { m with pid := pid })) rd.uid
